@@ -196,7 +196,7 @@ fn main() {
 
     let histo = Histo::new();
     // second space first (fixed share of the budget): shapes with one or two non-primitive ops
-    let npo_cov = if ctx.opt("family").is_some() { json!(null) } else { npo::run(&ctx, &report, &histo, if ctx.quick() { 0.18 } else { 0.45 }) };
+    let npo_cov = if ctx.opt("family").is_some() { json!(null) } else { npo::run(&ctx, &report, &histo, if ctx.quick() { 0.22 } else { 0.45 }) };
 
     let mut fams = families_scaled(if ctx.quick() { 1 } else { 2 });
     if let Some(f) = ctx.opt("family") {
